@@ -173,6 +173,9 @@ def plan_c15(tier):
     # whether the sat index forces full blocks (this found C15-signet-runes-below-first-inscription-height)
     for fl in ["runes", "sats,runes"] + (["runes,addresses", "runes,transactions"] if tier == "thorough" else []):
         parts.append(dict(n=1 if tier == "quick" else 6, blocks=20, flags=fl, chain="signet", update_every=4, tag="sg", seed_offset=3, family="runes"))
+    # ... and envelopes below the first inscription height are not inscriptions, whatever the flags
+    for fl in ["runes", "sats,runes"] + (["addresses", ""] if tier == "thorough" else []):
+        parts.append(dict(n=1 if tier == "quick" else 6, blocks=16, flags=fl, chain="signet", update_every=4, tag="si", seed_offset=4))
     if tier == "thorough":
         # signet: blocks below the first inscription height (112,402) are header-only unless runes are indexed, so the
         # values of the outputs spent afterwards are fetched from the node (the path without a full UTXO index)
